@@ -1002,7 +1002,8 @@ def alloc_failure_scenarios(c, binary, scns, name):
 
 # (Box::clone of a large array is std's `Box::new((**self).clone())` and is not among the constructors
 #  the property names; it overflows a small stack in debug builds by design of std, so it is not demanded.)
-BIG_OPS = ["default_boxed", "generate", "box_arr_repeat", "boxed_from_iter", "try_boxed_from_iter", "boxed_map", "generate_bigelem", "default_boxed_bigelem", "default_boxed_32x16k"]
+BIG_OPS = ["default_boxed", "generate", "box_arr_repeat", "boxed_from_iter", "try_boxed_from_iter", "try_from_vec", "boxed_map"]
+BIG_SHAPES = ["1m_u64", "256x16k", "64x16k", "32x16k"]
 
 
 @check("C15")
@@ -1015,7 +1016,7 @@ def c15(tier, seed):
             if s["d"]["op"] not in ("box_map", "box_fold", "box_zip", "box_clone")]
     c.cov["bounds"] = {"N": lens, "source lengths": "0, N-1, N, N+1", "vec capacity": "len and len+2"}
     c.conform(binary, scns, "conversions")
-    big = [{"case": "big", "prop": "C15", "d": {"op": op}} for op in BIG_OPS]
+    big = [{"case": "big", "prop": "C15", "d": {"op": op, "shape": sh}} for op in BIG_OPS for sh in BIG_SHAPES]
     c.conform(binary, big, "big-on-small-stack", sub="big")
     c.assumptions.append("O(1) rule: no allocator event between call and ret and the same block id afterwards, measured by the harness's recording global allocator")
     return c.finish()
